@@ -3,6 +3,7 @@ package c07
 import (
 	"bytes"
 	"fmt"
+	"strings"
 	"sync/atomic"
 	"testing"
 	"time"
@@ -42,7 +43,11 @@ type wireFrame struct {
 }
 
 func wf(ch byte, raw []byte, note string) wireFrame {
-	return wireFrame{Ch: ch, Hex: fmt.Sprintf("%x", raw), Note: note, raw: raw}
+	h := evid.Hex(raw)
+	if len(raw) <= 256 {
+		h = fmt.Sprintf("%x", raw)
+	}
+	return wireFrame{Ch: ch, Hex: h, Note: note, raw: raw}
 }
 
 var wireCounter uint64
@@ -88,7 +93,7 @@ func startServer() *srv.Server {
 // runWire executes one wire case. machinery problems (cannot connect, the
 // dialogue of the VALID part fails) are reported through t.Fatalf with a
 // "machinery:" prefix, never as violations.
-func runWire(t *testing.T, hostile []wireFrame) *wireOutcome {
+func runWire(t *testing.T, hostile []wireFrame, rot int) *wireOutcome {
 	s := startServer()
 	n := atomic.AddUint64(&wireCounter, 1)
 	path := fmt.Sprintf("/c07/wire/a%d", n)
@@ -148,8 +153,8 @@ func runWire(t *testing.T, hostile []wireFrame) *wireOutcome {
 			out.SessionDied = "writing a hostile frame failed: " + err.Error()
 		}
 	}
-	pa := buildProbe(esgen.H264, true, 6, 90000+2*probeStep, 20000, 30000)
-	pb := buildProbe(esgen.H264, true, 6, 90000+2*probeStep, 20000, 30000)
+	pa := buildProbeRot(esgen.H264, true, 9, 90000+2*probeStep, 20000, 30000, rot)
+	pb := buildProbeRot(esgen.H264, true, 9, 90000+2*probeStep, 20000, 30000, rot)
 	var wantA, wantB [][]byte
 	for j := range pa {
 		for _, p := range pa[j].pkts {
@@ -221,13 +226,13 @@ func runWire(t *testing.T, hostile []wireFrame) *wireOutcome {
 	r := &rig{s: st}
 	if !mediah.WaitFor(wireTimeout, func() bool {
 		for _, au := range pa {
-			if r.hlsHas(au.vtag) {
+			if au.fragmented && r.hlsHas(au.vtag) {
 				return true
 			}
 		}
 		return false
 	}) {
-		out.HLSMiss = "HLS: no segment holds a probe key frame"
+		out.HLSMiss = "HLS: no segment holds one of the probe's fragmented key frames"
 	}
 	// (d) the other session: the player receives what the second publisher sent, in order
 	var played [][]byte
@@ -275,9 +280,9 @@ func runWire(t *testing.T, hostile []wireFrame) *wireOutcome {
 	return out
 }
 
-func judgeWire(t *testing.T, name, class string, hostile []wireFrame, refusedClass bool) {
+func judgeWire(t *testing.T, name, class string, hostile []wireFrame, refusedClass bool, rot int) {
 	evid.Eval(1)
-	out := runWire(t, hostile)
+	out := runWire(t, hostile, rot)
 	f := out.failure()
 	if f == "publisher-session-ended" || f == "stream-gone" {
 		if refusedClass && evid.Known(sigFrameFatal) {
@@ -287,42 +292,43 @@ func judgeWire(t *testing.T, name, class string, hostile []wireFrame, refusedCla
 		}
 	}
 	if f != "" {
-		evid.Violation(t, name+"/"+f, map[string]any{"class": class, "hostile_frames": hostile, "outcome": out}, "%s (%s): %s", f, class, out)
+		evid.Violation(t, name+"/"+f, map[string]any{"class": class, "hostile_frames": briefFrames(hostile), "outcome": out}, "%s (%s): %s", f, class, out)
 	}
 	evid.Class("wire: " + class)
 	if out.refusedFrames < len(hostile) {
-		evid.Nontrivial(evid.FP("wire", class, fmt.Sprint(hostile)))
+		evid.Nontrivial(evid.FP("wire", class, len(hostile)))
 	}
 }
 
 type wireCase struct {
 	class string
 	fr    []wireFrame
+	rot   int // probe rotation (see caseSpec.ProbeRot)
 }
 
 // refusedWireCases: frames the interleaved reader refuses.
 func refusedWireCases() []wireCase {
 	valid := rtppack.Pkt{PT: 96, Marker: true, Seq: 1, TS: 90000, SSRC: 5, Payload: []byte{0x41, 0x9a, 0x00}}.Marshal()
 	return []wireCase{
-		{"unknown channel 9", []wireFrame{wf(9, valid, "valid RTP packet on channel 9")}},
-		{"unknown channel 255, empty", []wireFrame{wf(255, nil, "empty frame on channel 255")}},
-		{"unknown channel 4 (first beyond the set-up ones)", []wireFrame{wf(4, []byte{0x80, 0xc8, 0, 6}, "rtcp on channel 4")}},
-		{"video frame with 0-byte RTP packet", []wireFrame{wf(0, nil, "empty")}},
-		{"audio frame with 0-byte RTP packet", []wireFrame{wf(2, nil, "empty")}},
-		{"video frame with 3-byte RTP header", []wireFrame{wf(0, valid[:3], "3 bytes")}},
-		{"video frame with 11-byte RTP header", []wireFrame{wf(0, valid[:11], "11 bytes")}},
-		{"audio frame with 5-byte RTP header", []wireFrame{wf(2, valid[:5], "5 bytes")}},
-		{"video frame whose CSRC count exceeds the packet", []wireFrame{wf(0, append([]byte{0x8f}, valid[1:]...), "CC=15")}},
-		{"video frame whose header extension exceeds the packet", []wireFrame{wf(0, append(append([]byte{0x90}, valid[1:12]...), 0xbe, 0xde, 0xff, 0xff), "X=1, length 65535 words")}},
+		{"unknown channel 9", []wireFrame{wf(9, valid, "valid RTP packet on channel 9")}, 0},
+		{"unknown channel 255, empty", []wireFrame{wf(255, nil, "empty frame on channel 255")}, 0},
+		{"unknown channel 4 (first beyond the set-up ones)", []wireFrame{wf(4, []byte{0x80, 0xc8, 0, 6}, "rtcp on channel 4")}, 0},
+		{"video frame with 0-byte RTP packet", []wireFrame{wf(0, nil, "empty")}, 0},
+		{"audio frame with 0-byte RTP packet", []wireFrame{wf(2, nil, "empty")}, 0},
+		{"video frame with 3-byte RTP header", []wireFrame{wf(0, valid[:3], "3 bytes")}, 0},
+		{"video frame with 11-byte RTP header", []wireFrame{wf(0, valid[:11], "11 bytes")}, 0},
+		{"audio frame with 5-byte RTP header", []wireFrame{wf(2, valid[:5], "5 bytes")}, 0},
+		{"video frame whose CSRC count exceeds the packet", []wireFrame{wf(0, append([]byte{0x8f}, valid[1:]...), "CC=15")}, 0},
+		{"video frame whose header extension exceeds the packet", []wireFrame{wf(0, append(append([]byte{0x90}, valid[1:12]...), 0xbe, 0xde, 0xff, 0xff), "X=1, length 65535 words")}, 0},
 	}
 }
 
 // hostileWireCases: frames that reach the stream — the same hostile constants as
 // in the structured check, a few per class.
-func hostileWireCases() []wireCase {
+func hostileWireCases(fuMiddles int) []wireCase {
 	mp := func(pt byte, ts uint32, pl []byte) []byte { return mediaPacket(pt, true, 7, ts, pl) }
 	var cases []wireCase
-	add := func(class string, fr ...wireFrame) { cases = append(cases, wireCase{class, fr}) }
+	add := func(class string, fr ...wireFrame) { cases = append(cases, wireCase{class, fr, 0}) }
 	vts, ats := uint32(90000+probeStep), uint32((90000+probeStep)*441/900)
 	for _, h := range hostileH264 {
 		switch h.Name {
@@ -341,6 +347,35 @@ func hostileWireCases() []wireCase {
 		add(fmt.Sprintf("rtcp sender report cut to %d bytes (video control)", n), wf(1, b, "sr cut"))
 		add(fmt.Sprintf("rtcp sender report cut to %d bytes (audio control)", n), wf(3, b, "sr cut"))
 	}
+	// RTP padding (P bit): lying and correct pad counts, short and normal payloads
+	for _, pv := range paddingVariants(96, true, 7, vts, []byte{0x65, 0x88, 0x84}) {
+		add("rtp padding video "+pv.Name, wf(0, pv.B, pv.Name))
+	}
+	for _, pv := range paddingVariants(96, true, 7, vts, append([]byte{0x65}, bytes.Repeat([]byte{0x91}, 40)...)) {
+		switch {
+		case strings.Contains(pv.Name, "octet-255"), strings.Contains(pv.Name, "octet-0-"), strings.Contains(pv.Name, "octet-42"), strings.Contains(pv.Name, "octet-53"), strings.Contains(pv.Name, "correctly-padded-4"):
+			add("rtp padding video "+pv.Name, wf(0, pv.B, pv.Name))
+		}
+	}
+	for _, pv := range paddingVariants(97, true, 7, ats, rtppack.AacHbr([][]byte{{0x21, 0x10, 0x04}})) {
+		add("rtp padding audio "+pv.Name, wf(2, pv.B, pv.Name))
+	}
+	add("rtp padding video p-bit on a one-byte payload", wf(0, paddingVariants(96, true, 7, vts, []byte{0x65})[0].B, ""))
+	// a fragmentation unit that never ends: start + fuMiddles middle fragments of 65 000 bytes (84: 5.3 MiB under reassembly)
+	for rot, name := range []string{"then an aggregate", "then a single NAL unit", "then a start fragment"} {
+		var fr []wireFrame
+		for _, raw := range neverEndingFU(esgen.H264, fuMiddles, 65000, 5000, vts, rot != 1, false) {
+			fr = append(fr, wf(0, raw, ""))
+		}
+		cases = append(cases, wireCase{fmt.Sprintf("never-ending FU-A of %d x 65000 bytes, abandoned, %s", fuMiddles+1, name), fr, rot})
+	}
+	{
+		var fr []wireFrame
+		for _, raw := range neverEndingFU(esgen.H264, fuMiddles, 65000, 5000, vts, true, true) {
+			fr = append(fr, wf(0, raw, ""))
+		}
+		cases = append(cases, wireCase{fmt.Sprintf("huge FU-A of %d x 65000 bytes, finally ended", fuMiddles+2), fr, 2})
+	}
 	add("burst: every class in a row",
 		wf(0, mp(96, vts, hx(0x78, 0x00, 0x01)), "stapa"), wf(2, mp(97, ats, hx()), "aac empty"),
 		wf(1, hx(0x80, 0xc8, 0x00, 0x00), "rtcp 4 bytes"), wf(3, hx(), "rtcp empty"), wf(0, mp(96, vts, hx(0x7c)), "fu-a 1 byte"))
@@ -350,13 +385,13 @@ func hostileWireCases() []wireCase {
 // Frames the interleaved reader refuses: the session must survive them.
 func TestWireRefusedFrames(t *testing.T) {
 	for _, w := range refusedWireCases() {
-		judgeWire(t, "wire-refused", w.class, w.fr, true)
+		judgeWire(t, "wire-refused", w.class, w.fr, true, w.rot)
 	}
 }
 
 // Frames that reach the stream, through the real session.
 func TestWireHostileFrames(t *testing.T) {
-	for _, c := range hostileWireCases() {
-		judgeWire(t, "wire-hostile", c.class, c.fr, false)
+	for _, c := range hostileWireCases(84) {
+		judgeWire(t, "wire-hostile", c.class, c.fr, false, c.rot)
 	}
 }
